@@ -44,9 +44,6 @@ func C04(c *Ctx) int {
 		Harness{Name: "lr1.ResolveMixedShift", Pkg: pkg, Func: "H_ResolveMixedShift", Reach: []string{"conflict", "resolved"},
 			Bounds: "a shift backed by two productions of one rule; arbitrary qualifiers (differing positive levels outside the assertion)"})
 	ks := []int{1, 2}
-	if c.Thorough() {
-		ks = append(ks, 3)
-	}
 	for _, k := range ks {
 		hs = append(hs, Harness{Name: fmt.Sprintf("lr1.KernelKey[items=%d]", k), Pkg: pkg, Func: "H_KernelKey", Params: map[string]int{"items": k},
 			Reach: []string{"equal", "different"}, Bounds: fmt.Sprintf("two item sets of %d arbitrary items each (prod<4, dot<3, lookahead<3)", k)})
@@ -69,6 +66,11 @@ func C04(c *Ctx) int {
 			Params: map[string]int{"states": ref.States, "items": items, "actions": acts, "conflicts": ref.Conflicts},
 			Reach:  []string{"built"}, MaxPaths: 3000,
 			Bounds: "grammar " + g.Src + "; every range over a built-in map inside ConstructLALR in every order (all n! for n<=4 entries, rotations and reversals above); states, items, actions, conflicting cells and the verdict against my reference LALR(1) construction"})
+	}
+	if c.Thorough() {
+		// last: it uses whatever is left of the budget
+		hs = append(hs, Harness{Name: "lr1.KernelKey[items=3]", Pkg: pkg, Func: "H_KernelKey", Params: map[string]int{"items": 3},
+			Reach: []string{"equal", "different"}, Bounds: "two item sets of 3 arbitrary items each (prod<4, dot<3, lookahead<3)"})
 	}
 	for _, h := range hs {
 		r, err := c.RunHarness(prog, h)
